@@ -86,7 +86,7 @@ func genMulti(t *rapid.T) *Case {
 			}
 		}
 	}
-	m := &multiGen{g: &gen{avoid: hx.IsKnown(FindingReadn)}}
+	m := &multiGen{g: &gen{avoid: hx.IsKnown(FindingReadn), noFaults: true}}
 	for _, v := range ms {
 		c.Conns = append(c.Conns, ConnSpec{ClientMsize: v, Plain: rapid.IntRange(0, 2).Draw(t, "plain") == 0})
 		m.conns = append(m.conns, gconn{u: int64(negotiated(v, c.ServerMsize)) - iohdrsz})
